@@ -355,6 +355,15 @@ def check(case):
                 if surface == "model":
                     pr = M.get_propensities()[0]
                     got = pr.py_get_volume_propensity(xs, ps, vol, pt["t"]) if volmode else pr.py_get_propensity(xs, ps, pt["t"])
+                    # a general rate has no separate stochastic form: the stochastic entry points (the ones the
+                    # SSA-type simulators call) evaluate the same expression at the same time and volume
+                    got_s = pr.py_verif_stochastic_volume_propensity(xs, ps, vol, pt["t"]) if volmode \
+                        else pr.py_verif_stochastic_propensity(xs, ps, pt["t"])
+                    if math.isfinite(float(got)) and abs(float(got) - exp) <= 1e-8 * max(1.0, Mx) and \
+                            not (math.isfinite(float(got_s)) and abs(float(got_s) - exp) <= 1e-8 * max(1.0, Mx)):
+                        res.fail((("volume_" if volmode else "") + "evaluation", "model_stochastic_entry_point"), text=text,
+                                 tree=tree, point=pt, got=float(got_s), expected=exp)
+                        return res
                 elif surface == "rule":
                     from bioscrape.simulator import ModelCSimInterface
                     with specmod.quiet():
